@@ -119,6 +119,17 @@ theorem c10_handler_keys :
 theorem c10_keywords :
     Facts.H.dnsRewriteKeywords = [lit "NOERROR", lit "NXDOMAIN", lit "REFUSED", lit "SERVFAIL"] := by decide
 
+/-- Generated-fact obligation: every keyword of the shorthand form is a key of the generated
+    `dns.StringToRcode` table, with the value the RFC assigns -- so the `(lookupTbl … s).getD 0` of
+    `loadDNSRewriteShort` (Go: the map index `dns.StringToRcode[s]`, zero value when absent) never
+    falls back silently to NOERROR for a keyword. -/
+theorem c10_keywords_in_rcode_table :
+    Facts.H.dnsRewriteKeywords.all (fun k => (lookupTbl Facts.H.dnsRcodeTable k).isSome) = true ∧
+    lookupTbl Facts.H.dnsRcodeTable (lit "NOERROR") = some 0 ∧
+    lookupTbl Facts.H.dnsRcodeTable (lit "SERVFAIL") = some 2 ∧
+    lookupTbl Facts.H.dnsRcodeTable (lit "NXDOMAIN") = some 3 ∧
+    lookupTbl Facts.H.dnsRcodeTable (lit "REFUSED") = some 5 := by decide
+
 /-! Non-vacuity: each form is accepted for some value (and the hypotheses of `c10` are satisfiable). -/
 
 
